@@ -1563,3 +1563,83 @@ def falsify_keyring(m, out, eo=None):
         if got != m["want"]:
             return "%s returned `%s`, the list holds `%s` there" % (m["op"], got, m["want"])
     return None
+
+
+# =====================================================================================
+# C12: providers
+# =====================================================================================
+PROVIDER_NAMES = [b"openssl", b"gnutls"]
+
+
+def providers_suite(world, pool, tier, rng):
+    metas = []
+    # --- the switch: names incl. near-misses, ids, from every current provider
+    names = [b"openssl", b"gnutls", b"openssl ", b" openssl", b"OpenSSL", b"OPENSSL", b"gnutl", b"gnutlss", b"", b"mbedtls", b"any",
+             b"gnutls\x01", b"open\xc5\x9fsl", b"o", b"x" * 300, b"openssl" + b"l" * 250]
+    ids = [0, 1, 2, 3, 4, 5, 255, 65536, 2 ** 31 - 1, -1]
+    for start in PROVIDER_NAMES:
+        for n in names:
+            world.op("prov name " + hx(start), tag="cfg")
+            want_ok = n in PROVIDER_NAMES
+            cur = n if want_ok else start
+            metas.append((len(world.ops), {"kind": "switch", "by": "name", "arg": n[:40], "start": start.decode(),
+                                           "want": "rc=%d cur=%s id=%d" % (0 if want_ok else 1, cur.decode(), 1 + PROVIDER_NAMES.index(cur))}))
+            world.op("prov name " + hx(n), tag="switch")
+        for i in ids:
+            world.op("prov name " + hx(start), tag="cfg")
+            want_ok = i in (1, 2)
+            cur = PROVIDER_NAMES[i - 1] if want_ok else start
+            metas.append((len(world.ops), {"kind": "switch", "by": "id", "arg": i, "start": start.decode(),
+                                           "want": "rc=%d cur=%s id=%d" % (0 if want_ok else 1, cur.decode(), 1 + PROVIDER_NAMES.index(cur))}))
+            world.op("prov id %d" % i, tag="switch")
+    # --- deterministic algorithms: byte-identical tokens; keys loaded under one provider used under the other
+    world.op("clock 4242", tag="cfg")
+    s = 400
+    for load_under in PROVIDER_NAMES:
+        world.op("prov name " + hx(load_under), tag="cfg")
+        items = {}
+        for name, key in pool.keys.items():
+            items[name] = (world.add_key(s, key, private=True, alg_attr=None), world.add_key(s + 1, key, private=(key.kind == "oct"), alg_attr=None))
+            s += 2
+        for name, key in pool.keys.items():
+            priv, pub = items[name]
+            for alg in key.admissible_algs():
+                if alg == "ES256K":
+                    continue
+                deterministic = alg.startswith(("HS", "RS")) or alg == "EdDSA"
+                refs = []
+                for gen_under in PROVIDER_NAMES:
+                    world.op("prov name " + hx(gen_under), tag="cfg")
+                    world.op("bl 0 new", tag="cfg")
+                    world.op("bl 0 setkey %d %d %d" % ((K.ALG_ORD[alg],) + priv), tag="cfg")
+                    world.op("bl 0 cset json - %s 1" % hx(b'{"a":[1,"x"],"b":{"c":null}}'), tag="cfg")
+                    metas.append((len(world.ops), {"kind": "xgen", "key": name, "alg": alg, "loaded": load_under.decode(), "gen": gen_under.decode(),
+                                                   "deterministic": deterministic, "ref": refs[0] if refs else None}))
+                    refs.append(len(world.ops))
+                    world.op("bl 0 gen", tag="gen")
+                    for ver_under in PROVIDER_NAMES:
+                        world.op("prov name " + hx(ver_under), tag="cfg")
+                        world.op("ck 0 new", tag="cfg")
+                        world.op("ck 0 setkey %d %d %d" % ((K.ALG_ORD[alg],) + pub), tag="cfg")
+                        metas.append((len(world.ops), {"kind": "xverify", "key": name, "alg": alg, "loaded": load_under.decode(),
+                                                       "gen": gen_under.decode(), "ver": ver_under.decode()}))
+                        world.op("ck 0 verify @last", tag="verify")
+                        world.op("prov name " + hx(gen_under), tag="cfg")
+    world.op("prov name " + hx(b"openssl"), tag="cfg")
+    return metas
+
+
+def falsify_providers(m, out, eo):
+    if m["kind"] == "switch":
+        if out != m["want"]:
+            return "switch by %s to %r from %s answered `%s`; only an exact name/id of a compiled-in provider may switch: `%s`" % (
+                m["by"], m["arg"], m["start"], out, m["want"])
+    elif m["kind"] == "xgen":
+        if field(out, "tok") == "NULL":
+            return "generate with %s/%s (key loaded under %s) failed under %s" % (m["key"], m["alg"], m["loaded"], m["gen"])
+        if m["deterministic"] and m["ref"] is not None and field(eo[m["ref"]], "tok") != field(out, "tok"):
+            return "tokens for the deterministic algorithm %s (%s) differ between providers" % (m["alg"], m["key"])
+    elif m["kind"] == "xverify":
+        if field(out, "rc") != "0":
+            return "%s/%s token signed under %s is rejected under %s (key loaded under %s)" % (m["key"], m["alg"], m["gen"], m["ver"], m["loaded"])
+    return None
